@@ -136,6 +136,8 @@ struct Items<I> {
     hint: usize,
     /// report an exact size hint (lower = upper = items left): the hint then equals the item count
     exact: bool,
+    /// report a loose one: (hint, Some(4 * hint)) - what `str::chars()` does: only the lower bound is a promise
+    loose: bool,
 }
 impl<I: Iterator> Iterator for Items<I> {
     type Item = I::Item;
@@ -155,6 +157,8 @@ impl<I: Iterator> Iterator for Items<I> {
         if self.exact {
             let left = self.hint.saturating_sub(self.calls.max(0) as usize);
             (left, Some(left))
+        } else if self.loose && self.hint > 0 && self.hint < (1 << 20) {
+            (self.hint, Some(self.hint * 4))
         } else {
             (self.hint, None)
         }
@@ -327,7 +331,7 @@ impl Pool {
             }
             "extend" => {
                 if op.v == "chars" {
-                    let mut v = plain(&["chars", "ref_chars"]);
+                    let mut v = plain(&["chars", "ref_chars", "chars_loose"]);
                     if op.n >= 0 && op.n as usize == items_of(&op.x).len() {
                         v.extend(plain(&["chars_exact", "ref_chars_exact"]));
                     }
@@ -343,7 +347,7 @@ impl Pool {
             }
             "collect" => {
                 if op.v == "chars" {
-                    let mut v = plain(&["chars", "ref_chars"]);
+                    let mut v = plain(&["chars", "ref_chars", "chars_loose"]);
                     if op.n >= 0 && op.n as usize == items_of(&op.x).len() {
                         v.extend(plain(&["chars_exact", "ref_chars_exact"]));
                     }
@@ -551,13 +555,13 @@ impl Pool {
             }
             "extend" => {
                 let items = items_of(&op.x);
-                let it = Items { it: items.iter().map(|b| s_of(b)), calls: 0, m: op.m, hint: 0, exact: false };
+                let it = Items { it: items.iter().map(|b| s_of(b)), calls: 0, m: op.m, hint: 0, exact: false, loose: false };
                 ss[h].as_mut().unwrap().extend(it);
                 ok()
             }
             "collect" => {
                 let items = items_of(&op.x);
-                let it = Items { it: items.iter().map(|b| s_of(b)), calls: 0, m: op.m, hint: 0, exact: false };
+                let it = Items { it: items.iter().map(|b| s_of(b)), calls: 0, m: op.m, hint: 0, exact: false, loose: false };
                 let s: String = it.collect();
                 ss[h] = Some(s);
                 ok()
@@ -905,20 +909,21 @@ impl Pool {
                 let s = self.ls[h].as_mut().unwrap();
                 let e = if op.e.is_empty() { if op.v == "chars" { "chars" } else { "str" } } else { op.e.as_str() };
                 let exact = e.ends_with("_exact");
-                let e = e.trim_end_matches("_exact");
+                let e_loose = e.ends_with("_loose");
+                let e = e.trim_end_matches("_exact").trim_end_matches("_loose");
                 match e {
-                    "chars" => mx(|| s.extend(Items { it: items.iter().map(|b| s_of(b).chars().next().unwrap()), calls: 0, m, hint, exact })),
+                    "chars" => mx(|| s.extend(Items { it: items.iter().map(|b| s_of(b).chars().next().unwrap()), calls: 0, m, hint, exact, loose: e_loose })),
                     "ref_chars" => {
                         let cs: Vec<char> = items.iter().map(|b| s_of(b).chars().next().unwrap()).collect();
-                        mx(|| s.extend(Items { it: cs.iter(), calls: 0, m, hint, exact }))
+                        mx(|| s.extend(Items { it: cs.iter(), calls: 0, m, hint, exact, loose: e_loose }))
                     }
-                    "str" => mx(|| s.extend(Items { it: items.iter().map(|b| s_of(b)), calls: 0, m, hint, exact })),
-                    "str_sized" => mx(|| s.extend(Items { it: items.iter().map(|b| s_of(b)), calls: 0, m, hint: items.len(), exact: true })),
-                    "string_sized" => mx(|| s.extend(Items { it: items.iter().map(|b| s_of(b).to_string()), calls: 0, m, hint: items.len(), exact: true })),
-                    "string" => mx(|| s.extend(Items { it: items.iter().map(|b| s_of(b).to_string()), calls: 0, m, hint, exact })),
-                    "box" => mx(|| s.extend(Items { it: items.iter().map(|b| s_of(b).to_string().into_boxed_str()), calls: 0, m, hint, exact })),
-                    "cow" => mx(|| s.extend(Items { it: items.iter().map(|b| Cow::Borrowed(s_of(b))), calls: 0, m, hint, exact })),
-                    "lean" => mx(|| s.extend(Items { it: items.iter().map(|b| shim::foreign(|| LeanString::from(s_of(b)))), calls: 0, m, hint, exact })),
+                    "str" => mx(|| s.extend(Items { it: items.iter().map(|b| s_of(b)), calls: 0, m, hint, exact, loose: e_loose })),
+                    "str_sized" => mx(|| s.extend(Items { it: items.iter().map(|b| s_of(b)), calls: 0, m, hint: items.len(), exact: true, loose: false })),
+                    "string_sized" => mx(|| s.extend(Items { it: items.iter().map(|b| s_of(b).to_string()), calls: 0, m, hint: items.len(), exact: true, loose: false })),
+                    "string" => mx(|| s.extend(Items { it: items.iter().map(|b| s_of(b).to_string()), calls: 0, m, hint, exact, loose: e_loose })),
+                    "box" => mx(|| s.extend(Items { it: items.iter().map(|b| s_of(b).to_string().into_boxed_str()), calls: 0, m, hint, exact, loose: e_loose })),
+                    "cow" => mx(|| s.extend(Items { it: items.iter().map(|b| Cow::Borrowed(s_of(b))), calls: 0, m, hint, exact, loose: e_loose })),
+                    "lean" => mx(|| s.extend(Items { it: items.iter().map(|b| shim::foreign(|| LeanString::from(s_of(b)))), calls: 0, m, hint, exact, loose: e_loose })),
                     other => panic!("harness: unknown extend variant {other}"),
                 }
                 Out::Ok
@@ -929,20 +934,21 @@ impl Pool {
                 let m = op.m;
                 let e = if op.e.is_empty() { if op.v == "chars" { "chars" } else { "str" } } else { op.e.as_str() };
                 let exact = e.ends_with("_exact");
-                let e = e.trim_end_matches("_exact");
+                let e_loose = e.ends_with("_loose");
+                let e = e.trim_end_matches("_exact").trim_end_matches("_loose");
                 let v: LeanString = match e {
-                    "chars" => mx(|| Items { it: items.iter().map(|b| s_of(b).chars().next().unwrap()), calls: 0, m, hint, exact }.collect()),
+                    "chars" => mx(|| Items { it: items.iter().map(|b| s_of(b).chars().next().unwrap()), calls: 0, m, hint, exact, loose: e_loose }.collect()),
                     "ref_chars" => {
                         let cs: Vec<char> = items.iter().map(|b| s_of(b).chars().next().unwrap()).collect();
-                        mx(|| Items { it: cs.iter(), calls: 0, m, hint, exact }.collect())
+                        mx(|| Items { it: cs.iter(), calls: 0, m, hint, exact, loose: e_loose }.collect())
                     }
-                    "str" => mx(|| Items { it: items.iter().map(|b| s_of(b)), calls: 0, m, hint, exact }.collect()),
-                    "str_sized" => mx(|| Items { it: items.iter().map(|b| s_of(b)), calls: 0, m, hint: items.len(), exact: true }.collect()),
-                    "string_sized" => mx(|| Items { it: items.iter().map(|b| s_of(b).to_string()), calls: 0, m, hint: items.len(), exact: true }.collect()),
-                    "string" => mx(|| Items { it: items.iter().map(|b| s_of(b).to_string()), calls: 0, m, hint, exact }.collect()),
-                    "box" => mx(|| Items { it: items.iter().map(|b| s_of(b).to_string().into_boxed_str()), calls: 0, m, hint, exact }.collect()),
-                    "cow" => mx(|| Items { it: items.iter().map(|b| Cow::Borrowed(s_of(b))), calls: 0, m, hint, exact }.collect()),
-                    "lean" => mx(|| Items { it: items.iter().map(|b| shim::foreign(|| LeanString::from(s_of(b)))), calls: 0, m, hint, exact }.collect()),
+                    "str" => mx(|| Items { it: items.iter().map(|b| s_of(b)), calls: 0, m, hint, exact, loose: e_loose }.collect()),
+                    "str_sized" => mx(|| Items { it: items.iter().map(|b| s_of(b)), calls: 0, m, hint: items.len(), exact: true, loose: false }.collect()),
+                    "string_sized" => mx(|| Items { it: items.iter().map(|b| s_of(b).to_string()), calls: 0, m, hint: items.len(), exact: true, loose: false }.collect()),
+                    "string" => mx(|| Items { it: items.iter().map(|b| s_of(b).to_string()), calls: 0, m, hint, exact, loose: e_loose }.collect()),
+                    "box" => mx(|| Items { it: items.iter().map(|b| s_of(b).to_string().into_boxed_str()), calls: 0, m, hint, exact, loose: e_loose }.collect()),
+                    "cow" => mx(|| Items { it: items.iter().map(|b| Cow::Borrowed(s_of(b))), calls: 0, m, hint, exact, loose: e_loose }.collect()),
+                    "lean" => mx(|| Items { it: items.iter().map(|b| shim::foreign(|| LeanString::from(s_of(b)))), calls: 0, m, hint, exact, loose: e_loose }.collect()),
                     other => panic!("harness: unknown collect variant {other}"),
                 };
                 self.ls[h] = Some(v);
